@@ -70,7 +70,7 @@ func TestVerif_C18(t *testing.T) {
 		r.Note("failpoint_missing: transport.beforeWriteHeaders anchor not found; running without the injected delay")
 		r.SetExtra("failpoint_missing", true)
 	}
-	n := r.N(500, 6000)
+	n := r.N(700, 6000)
 	r.Cases("goaway", n, func(c *verifrt.Case) {
 		synctest.Test(t, func(t *testing.T) {
 			defer func() {
@@ -84,8 +84,8 @@ func TestVerif_C18(t *testing.T) {
 	r.Require("goaways_sent", int64(n*8/10))
 	r.Require("requests_on_stream_le_L_completed", 200)
 	r.Require("requests_on_stream_le_L_failed_with_conn_error", 50)
-	r.Require("requests_retried_on_new_connection", 200)
-	r.Require("requests_gt_L_failed_not_replayable", 50)
+	r.Require("requests_retried_on_new_connection", 100)
+	r.Require("requests_gt_L_failed_not_replayable", 25)
 	r.Require("new_requests_after_goaway_went_to_new_connection", 100)
 	r.Require("sessions_completed", int64(n*9/10))
 }
